@@ -184,11 +184,11 @@ func genStoreCase(prop string, r *rng, tier string) {
 		return
 	}
 	g := &storeGen{r: r, prop: prop, run: run, ranges: ranges}
-	if prop == "C14" || (prop == "C08" && r.chance(1, 4)) {
+	if prop == "C14" || (prop == "C08" && r.chance(1, 4)) || (prop == "C04" && r.chance(1, 5)) {
 		nh := 1 + r.intn(3)
 		for i := 0; i < nh; i++ {
 			sc := "-"
-			if (prop == "C14" && cfg.par == 0 && r.chance(2, 3)) || (prop == "C08" && cfg.par == 0 && r.chance(1, 3)) { // call-index scripts need the sequential order
+			if (prop == "C14" && cfg.par == 0 && r.chance(2, 3)) || (prop == "C08" && cfg.par == 0 && r.chance(1, 3)) || (prop == "C04" && r.chance(1, 2)) { // call-index scripts need the sequential order
 				var fs []string
 				for k := 0; k < 1+r.intn(2); k++ {
 					fs = append(fs, strconv.Itoa(r.intn(12))+string("epn"[r.intn(3)]))
@@ -257,6 +257,9 @@ func runStoreProp(prop, tier string, r *rng) {
 		parFailCase(prop, 40, 31, 12, 4, false)
 	}
 	if prop == "C08" {
+		for _, k := range []int{1, 2, 3, 4, 7, 8, 12} {
+			delFaultCase(prop, 16, 11, k)
+		}
 		queuedDeleteCase(prop, 21, 31, 41, 25, 32)
 		queuedDeleteCase(prop, 10, 14, 20, 12, 15)
 		queuedDeleteCase(prop, 10, 14, 20, 5, 15)
@@ -660,4 +663,101 @@ func exhaustiveOne(prop string, ops []int, batch int, flavour string) {
 	}
 	run.close()
 	emit("end")
+}
+
+// delFaultCase: a datastore Delete fails once in the middle of a tail-side DeleteRange (the k-th direct delete);
+// the retry from the new Tail must leave NOTHING of the range behind - by height, by hash, or as a raw key.
+func delFaultCase(prop string, n, to, failAt int) {
+	ctx := context.Background()
+	chain := vhdr.Chain("A", n, storeT0, int64(time.Second), 0)
+	core := memds.NewCore()
+	st, err := store.NewStore[*vhdr.Header](&memds.Plain{C: core}, store.WithWriteBatchSize(4))
+	if err != nil {
+		panic(err)
+	}
+	if err := func() error { sc, end := startCtx(); defer end(); return st.Start(sc) }(); err != nil {
+		panic(err)
+	}
+	defer st.Stop(ctx) //nolint:errcheck
+	_ = st.Append(ctx, chain...)
+	_ = st.Sync(ctx)
+	_ = st.Stop(ctx)
+	st, err = store.NewStore[*vhdr.Header](&memds.Plain{C: core}, store.WithWriteBatchSize(4))
+	if err != nil {
+		panic(err)
+	}
+	if err := func() error { sc, end := startCtx(); defer end(); return st.Start(sc) }(); err != nil {
+		panic(err)
+	}
+	ndel := 0
+	core.Fault = func(w memds.Write) bool {
+		if w.Batch || len(w.Ops) != 1 || w.Ops[0].Val != nil {
+			return false
+		}
+		ndel++
+		return ndel == failAt
+	}
+	c, cancel := context.WithTimeout(ctx, 5*time.Second)
+	e1 := st.DeleteRange(c, 1, uint64(to))
+	cancel()
+	core.Fault = nil
+	t1 := uint64(0)
+	t1stored := "-"
+	if h, err := st.Tail(ctx); err == nil {
+		t1 = h.H
+		// does the Tail the store reports after the failed call resolve to a STORED header?
+		_, eh := st.GetByHeight(cancelled, h.H)
+		_, ex := st.Get(ctx, h.Hash())
+		okk, _ := st.Has(ctx, h.Hash())
+		t1stored = fmt.Sprintf("byheight:%s,byhash:%s,has:%v", errs(eh), errs(ex), okk)
+	}
+	var e2 error
+	if t1 >= 1 && t1 < uint64(to) {
+		c2, cancel2 := context.WithTimeout(ctx, 5*time.Second)
+		e2 = st.DeleteRange(c2, t1, uint64(to))
+		cancel2()
+	}
+	view := func(s *store.Store[*vhdr.Header]) (byh, byhash []string) {
+		for h := 1; h <= n; h++ {
+			if x, err := s.GetByHeight(cancelled, uint64(h)); err == nil && x.H == uint64(h) {
+				byh = append(byh, itoa(h))
+			}
+			if x, err := s.Get(ctx, chain[h-1].Hash()); err == nil && x != nil {
+				byhash = append(byhash, itoa(h))
+			}
+		}
+		return
+	}
+	js := func(xs []string) string {
+		if len(xs) == 0 {
+			return "-"
+		}
+		return strings.Join(xs, ",")
+	}
+	bh1, bx1 := view(st)
+	_ = st.Stop(ctx)
+	st, err = store.NewStore[*vhdr.Header](&memds.Plain{C: core}, store.WithWriteBatchSize(4))
+	if err != nil {
+		panic(err)
+	}
+	if err := func() error { sc, end := startCtx(); defer end(); return st.Start(sc) }(); err != nil {
+		panic(err)
+	}
+	bh2, bx2 := view(st)
+	// raw keys of the range left in the datastore (hash keys and height keys)
+	left := 0
+	snap := core.Snapshot()
+	for h := 1; h < to; h++ {
+		for k := range snap {
+			if strings.HasSuffix(k, "/"+itoa(h)) || strings.HasSuffix(strings.ToUpper(k), strings.ToUpper(chain[h-1].Hash().String())) {
+				left++
+			}
+		}
+	}
+	tl := uint64(0)
+	if h, err := st.Tail(ctx); err == nil {
+		tl = h.H
+	}
+	emit("%s kind=delfault n=%d to=%d failat=%d => res1=%s tail1=%d tail1stored=%s res2=%s byheight=%s byhash=%s byheight2=%s byhash2=%s tail=%d rawleft=%d", prop, n, to, failAt,
+		errs(e1), t1, t1stored, errs(e2), js(bh1), js(bx1), js(bh2), js(bx2), tl, left)
 }
